@@ -1,8 +1,10 @@
 package files
 
 import (
+	"fmt"
 	"io"
 	"os"
+	"strings"
 )
 
 // C07 (inductive step): from an ARBITRARY state of the sliding window that satisfies the
@@ -80,6 +82,10 @@ func VerifC07Step(op int, k int, twin int) {
 	M := int64(vInt("max"))
 	c := int64(vInt("cur"))
 	c07Window(F, m, M, c)
+	c07Lemma(F, m, c, func() { c07StepBody(F, m, M, c, op, k, twin) })
+}
+
+func c07StepBody(F int64, m int64, M int64, c int64, op int, k int, twin int) {
 	vNote("source", "BufferedFile step op "+string(rune('0'+op)))
 	vNoteInt("F", int(F))
 	vNoteInt("min", int(m))
@@ -98,6 +104,7 @@ func VerifC07Step(op int, k int, twin int) {
 		off := int64(vInt("off"))
 		vAssume(off >= 0 && off <= F)
 		vNoteInt("off", int(off))
+		c07Off = off
 		vfsAbstractTouch(f, F, off)
 		n, err := bf.Seek(off, io.SeekStart)
 		if err != nil || n != off || bf.currentOffset != off {
@@ -146,6 +153,10 @@ func VerifC07New() {
 	vAssume(F >= 0 && F < (1<<40))
 	vNote("source", "NewBufferedFile")
 	vNoteInt("F", int(F))
+	c07Lemma(F, 0, 0, func() { c07NewBody(F) })
+}
+
+func c07NewBody(F int64) {
 	f := vfsAbstractFile(F)
 	vfsAbstractTouch(f, F, 0)
 	vfsAbstractTouch(f, F, F)
@@ -231,6 +242,12 @@ func VerifC07StepClassesCount() int { return len(c07InWin)*len(c07After) + len(c
 
 func VerifC07StepClasses(class int, op int, k int) {
 	var m, M, F, c int64
+	c07ClassState(class, &m, &M, &F, &c)
+	c07Lemma(F, m, c, func() { c07ClassesBody(F, m, M, c, op, k) })
+}
+
+func c07ClassState(class int, pm *int64, pM *int64, pF *int64, pc *int64) {
+	var m, M, F, c int64
 	if class < len(c07InWin)*len(c07After) {
 		in := c07InWin[class/len(c07After)]
 		after := c07After[class%len(c07After)]
@@ -244,6 +261,10 @@ func VerifC07StepClasses(class int, op int, k int) {
 		m, M = 0, F
 		c = []int64{0, 1, F / 2, F - 1, F}[vPick("cur", 5)]
 	}
+	*pm, *pM, *pF, *pc = m, M, F, c
+}
+
+func c07ClassesBody(F int64, m int64, M int64, c int64, op int, k int) {
 	vNote("source", "BufferedFile step (boundary classes) op "+string(rune('0'+op)))
 	vNoteInt("F", int(F))
 	vNoteInt("min", int(m))
@@ -273,6 +294,7 @@ func VerifC07StepClasses(class int, op int, k int) {
 		// seek one byte back (anchors), to the start, to an arbitrary earlier/later offset
 		off := int64(vInt("off"))
 		vAssume(off >= 0 && off <= F)
+		c07Off = off
 		vfsAbstractTouch(f, F, off)
 		n, err := bf.Seek(off, 0)
 		if err != nil || n != off || bf.currentOffset != off {
@@ -303,4 +325,140 @@ func VerifC07StepClasses(class int, op int, k int) {
 		}
 		check("after Read")
 	}
+}
+
+// ---- the step lemmas are leads; violations are confirmed through the public API ----
+// The lemmas start from a constructed window state and assert a representation invariant: both are
+// statements about THIS implementation's internals, not about what a caller of BufferedFile can observe.
+// Under gosym a failing step ends the path as a failure; in the native replay the failure is only kept when
+// a history of public calls (NewBufferedFile, Seek, Read) on a real file of the same size, around the same
+// offsets, returns bytes that are not the file's bytes (or an error, a short read, a crash). Otherwise the
+// replay passes, and the check reports the lemma as not confirmed (inconclusive), never as a violation.
+
+var c07Off int64 = -1
+
+func c07Lemma(F int64, m int64, c int64, body func()) {
+	if vSymbolic() {
+		body()
+		return
+	}
+	c07Off = -1
+	failed := ""
+	func() {
+		defer func() {
+			if r := recover(); r != nil {
+				if _, ok := r.(vAssumeFailed); ok {
+					panic(r)
+				}
+				failed = fmt.Sprint(r)
+			}
+		}()
+		body()
+	}()
+	if failed == "" {
+		return
+	}
+	if h := c07BlackBox(F, m, c, c07Off); h != "" {
+		panic("VERIF-FAIL: " + strings.TrimPrefix(failed, "VERIF-FAIL: ") + " | through the public API: " + h)
+	}
+	fmt.Println("VLEMMA step fails from the constructed state but no public history around it misreads the file:", failed)
+}
+
+// c07BlackBox runs every history of up to three Seeks over the offsets of interest followed by two Reads,
+// on a fresh BufferedFile over a real file whose byte at offset i is byte(i) near those offsets.
+func c07BlackBox(F int64, m int64, c int64, off int64) (history string) {
+	if F <= 0 {
+		return ""
+	}
+	cand := []int64{0, 1, m - 1, m, m + 1, m + 2047, m + 2048, m + 2049, m + 4095, m + 4096, m + 4097, c - 1, c, c + 1,
+		F - 4097, F - 4096, F - 4095, F - 2049, F - 2048, F - 2047, F - 2, F - 1, F}
+	if off >= 0 {
+		cand = append(cand, off-1, off, off+1, off-2048, off+2048, off-4096, off+4096)
+	}
+	seen := map[int64]bool{}
+	S := []int64{}
+	for _, x := range cand {
+		if x >= 0 && x <= F && !seen[x] {
+			seen[x] = true
+			S = append(S, x)
+		}
+	}
+	f := vfsAbstractFile(F)
+	for _, x := range S {
+		vfsAbstractTouch(f, F, x)
+	}
+	lens := []int{1, 2, 3, 4, 8}
+	try := func(seeks []int64, ln int) (bad string) {
+		desc := fmt.Sprintf("size %d: NewBufferedFile", F)
+		defer func() {
+			if r := recover(); r != nil {
+				if _, ok := r.(vAssumeFailed); ok {
+					panic(r)
+				}
+				bad = desc + fmt.Sprintf(" panics: %v", r)
+			}
+		}()
+		// NewBufferedFile fills its first window from the descriptor's position: a freshly opened file
+		if _, err := f.Seek(0, io.SeekStart); err != nil {
+			return ""
+		}
+		bf := NewBufferedFile(f, F)
+		pos := int64(0)
+		for _, s := range seeks {
+			if s < 0 {
+				desc += "; Seek(0,SeekCurrent)"
+				n, err := bf.Seek(0, io.SeekCurrent)
+				if err != nil || n != pos {
+					return desc + fmt.Sprintf(" = (%d,%v), want %d", n, err, pos)
+				}
+				continue
+			}
+			desc += fmt.Sprintf("; Seek(%d)", s)
+			n, err := bf.Seek(s, io.SeekStart)
+			if err != nil || n != s {
+				return desc + fmt.Sprintf(" = (%d,%v)", n, err)
+			}
+			pos = s
+		}
+		for round := 0; round < 2; round++ {
+			if pos+int64(ln) > F {
+				return ""
+			}
+			p := make([]byte, ln)
+			desc += fmt.Sprintf("; Read(%d bytes)", ln)
+			n, err := bf.Read(p)
+			if err != nil || n != ln {
+				return desc + fmt.Sprintf(" = (%d,%v)", n, err)
+			}
+			for i := 0; i < ln; i++ {
+				if p[i] != byte(pos+int64(i)) {
+					return desc + fmt.Sprintf(" returned byte %d at file offset %d, the file holds %d", p[i], pos+int64(i), byte(pos+int64(i)))
+				}
+			}
+			pos += int64(ln)
+		}
+		return ""
+	}
+	withCur := append([]int64{-1}, S...)
+	for _, ln := range lens {
+		for _, a := range S {
+			if b := try([]int64{a}, ln); b != "" {
+				return b
+			}
+			for _, b2 := range withCur {
+				if b := try([]int64{a, b2}, ln); b != "" {
+					return b
+				}
+				if ln > 2 {
+					continue
+				}
+				for _, c3 := range withCur {
+					if b := try([]int64{a, b2, c3}, ln); b != "" {
+						return b
+					}
+				}
+			}
+		}
+	}
+	return ""
 }
